@@ -820,7 +820,7 @@ Lemma for1_eq : forall xs line sc cm ins,
   parse_line_gen_for1 xs line sc cm ins =
   match first_rule line xs with
   | Some (key, cls, sh) =>
-      match parse_shape sh (strip (drop (String.length key) line)) with
+      match parse_imm cls sh (strip (drop (String.length key) line)) with
       | Ok ps => Some (Some (Some (of_generic cls (fix_params cls ps))), Some (of_generic cls (fix_params cls ps)))
       | Err _ => None
       end
@@ -831,7 +831,7 @@ Proof.
   cbn [parse_line_gen_for1 first_rule]. unfold str_startswith, starts_with.
   destruct (String.prefix key line); [|apply IH].
   unfold apply_rule. cbn [fst snd]. rewrite str_strip_eq, str_slice_from_drop.
-  destruct (parse_shape sh (strip (drop (String.length key) line))); reflexivity.
+  destruct (parse_imm cls sh (strip (drop (String.length key) line))); reflexivity.
 Qed.
 
 (* the tail of Parse.parse_fields: dispatch to the ordered prefix rules *)
@@ -839,7 +839,7 @@ Definition rules_part (fields : list string) : res (option instr) :=
   let l := join " " fields in
   match first_rule l parser_rules with
   | Some (key, cls, sh) =>
-      do ps <- parse_shape sh (strip (drop (String.length key) l));
+      do ps <- parse_imm cls sh (strip (drop (String.length key) l));
       Ok (Some (of_generic cls (fix_params cls ps)))
   | None => Ok (Some (IOther "UnsupportedInstruction" [PStr l]))
   end.
@@ -864,7 +864,7 @@ Proof.
   intros. unfold parse_line_gen_k5. destruct ins as [i|]; [reflexivity|].
   cbn [negb]. cbv zeta. rewrite for1_eq, str_join_eq. unfold rules_part. cbv zeta.
   destruct (first_rule (join " " fields) parser_rules) as [[[key cls] sh]|].
-  - destruct (parse_shape sh _); reflexivity.
+  - destruct (parse_imm cls sh _); reflexivity.
   - cbn [bind attr_store ret of_res]. rewrite new_unsupported. reflexivity.
 Qed.
 
@@ -1129,3 +1129,65 @@ Print Assumptions parse_int_gen_spellings.
 Print Assumptions parse_line_top_words.
 Print Assumptions parse_line_top_roundtrip_int.
 Print Assumptions parse_byte_arguments_gen_forms.
+
+(* ====================================================================== *)
+(* PART 7 : signed immediates (frame_dig / frame_bury): _parse_int against Parse.parse_sint *)
+(* ====================================================================== *)
+(* "-d1..dk": neither "0x" nor "0" is a prefix, so _parse_int evaluates int(x) in base 10, which reads the sign *)
+Lemma parse_int_gen_minus : forall t, str_forall int_plain_char t = true ->
+  parse_int_gen (String "-" t) = option_map (fun n => Z.opp (Z.of_N n)) (parse_base 10 t).
+Proof.
+  intros t Ht. unfold parse_int_gen, str_startswith.
+  change (String.prefix "0x" (String "-" t)) with false. change (String.prefix "0" (String "-" t)) with false.
+  cbv iota. unfold py_int.
+  rewrite lstrip_by_id by reflexivity.
+  rewrite rstrip_by_id by (cbn [str_forall]; rewrite (plain_no_blank t Ht); reflexivity).
+  change (Ascii.eqb "-" "-") with true. cbv iota.
+  unfold int_unsigned. rewrite has_prefix_10.
+  destruct t as [|c t']; [reflexivity|].
+  pose proof Ht as Ht0. cbn [str_forall] in Ht. apply andb_true_iff in Ht. destruct Ht as [Hc _].
+  unfold int_plain_char in Hc. rewrite !andb_true_iff, !negb_true_iff in Hc. destruct Hc as [[[_ Hu] _] _].
+  rewrite Hu. rewrite int_digits_plain by (lia || exact Ht0). reflexivity.
+Qed.
+
+(* the domain of the equality for a signed immediate: a plain integer, or "-" followed by plain characters *)
+Definition sint_plain (x : string) : bool :=
+  match x with
+  | String c t => if Ascii.eqb c "-" then str_forall int_plain_char t else int_plain x
+  | EmptyString => int_plain x
+  end.
+Lemma of_res_sint_unsigned : forall x,
+  of_res (Parse.bind (parse_int x) (fun n => Ok (Z.of_N n))) = option_map Z.of_N (of_res (parse_int x)).
+Proof. intros x. destruct (parse_int x); reflexivity. Qed.
+(* on that domain _parse_int IS the model's parse_sint: same integer, an exception on the same strings *)
+Theorem parse_sint_gen_eq_partial : forall x, sint_plain x = true -> parse_int_gen x = of_res (parse_sint x).
+Proof.
+  intros x H. destruct x as [|c t].
+  - cbn [sint_plain] in H. unfold parse_sint. rewrite of_res_sint_unsigned. apply parse_int_gen_eq_partial. exact H.
+  - cbn [sint_plain] in H. unfold parse_sint. destruct (Ascii.eqb c "-") eqn:E.
+    + apply Ascii.eqb_eq in E. subst c. rewrite (parse_int_gen_minus t H). destruct (parse_base 10 t); reflexivity.
+    + rewrite of_res_sint_unsigned. apply parse_int_gen_eq_partial. exact H.
+Qed.
+(* every string: the model never accepts more than the code, and the integers agree *)
+Theorem parse_sint_gen_complete : forall x z, parse_sint x = Ok z -> parse_int_gen x = Some z.
+Proof.
+  intros x z H.
+  assert (U : forall y, Parse.bind (parse_int y) (fun n => Ok (Z.of_N n)) = Ok z -> parse_int_gen y = Some z).
+  { intros y Hy. destruct (parse_int y) as [n|e] eqn:E; [|discriminate]. cbn [Parse.bind] in Hy. injection Hy as <-.
+    apply parse_int_gen_complete. exact E. }
+  destruct x as [|c t]; [exact (U _ H)|]. unfold parse_sint in H. destruct (Ascii.eqb c "-") eqn:E; [|exact (U _ H)].
+  apply Ascii.eqb_eq in E. subst c. destruct (parse_base 10 t) as [n|] eqn:Ep; [|discriminate]. injection H as <-.
+  rewrite (parse_int_gen_minus t (parse_base_plain 10 t n ltac:(lia) Ep)), Ep. reflexivity.
+Qed.
+(* outside the domain the code still accepts more (underscores, blanks after the sign are not among them: "- 1" raises) *)
+Theorem parse_sint_gen_eq_refuted :
+  parse_int_gen "-1_0" = Some (-10)%Z /\ of_res (parse_sint "-1_0") = None /\ sint_plain "-1_0" = false /\
+  parse_int_gen "-0x1" = None /\ of_res (parse_sint "-0x1") = None /\
+  parse_int_gen "-010" = Some (-10)%Z /\ of_res (parse_sint "-010") = Some (-10)%Z /\
+  parse_int_gen "- 1" = None /\ of_res (parse_sint "- 1") = None /\
+  parse_int_gen "--1" = None /\ of_res (parse_sint "--1") = None.
+Proof. repeat split; reflexivity. Qed.
+
+Print Assumptions parse_sint_gen_eq_partial.
+Print Assumptions parse_sint_gen_complete.
+Print Assumptions parse_sint_gen_eq_refuted.
